@@ -181,7 +181,7 @@ func (tr *c14Transport) RoundTrip(creq *http.Request) (*http.Response, error) {
 			t.Header = http.Header{"Content-Type": {"text/plain"}}
 		case "status-daverror":
 			t.Status, t.Body = f.Arg, []byte(xmlHdr+`<D:error xmlns:D="DAV:"><D:lock-token-submitted><D:href>/locked/</D:href></D:lock-token-submitted></D:error>`)
-			t.Header = http.Header{"Content-Type": {rt.Pick(rt.NewRand(uint64(f.Arg)), []string{"application/xml", "text/xml; charset=utf-8", `application/xml; charset="utf-8"`})}}
+			t.Header = http.Header{"Content-Type": {rt.Pick(rt.NewRand(uint64(f.Arg)), []string{"application/xml", "text/xml; charset=utf-8", `application/xml; charset="utf-8"`, `Application/XML; charset="utf-8"`, "TEXT/XML", "text/Xml;charset=UTF-8", "application/xml ; charset=utf-8"})}}
 		case "status-daverror-large":
 			var sb strings.Builder
 			sb.WriteString(xmlHdr + `<D:error xmlns:D="DAV:"><D:lock-token-submitted>`)
@@ -289,6 +289,13 @@ func rewriteMultiStatus(body []byte, f *Fault) ([]byte, string) {
 			}
 		}
 		kids = append(kids, &model.Elem{Space: model.DAV, Local: "status", Text: statusLine})
+		switch f.Sel % 3 {
+		case 1:
+			kids = append(kids, &model.Elem{Space: model.DAV, Local: "responsedescription", Text: "the resource is gone"})
+		case 2:
+			kids = append(kids, &model.Elem{Space: model.DAV, Local: "error", Kids: []*model.Elem{{Space: model.DAV, Local: "need-privileges"}}},
+				&model.Elem{Space: model.DAV, Local: "responsedescription", Text: "no"})
+		}
 		r.Kids = kids
 		what = fmt.Sprintf("response %s status=%d", href, f.Arg)
 	} else {
@@ -604,7 +611,8 @@ func foreignSync(coll string, seed uint64) http.Handler {
 		for i := 0; i < n; i++ {
 			p := fmt.Sprintf("%sc%d.vcf", coll, i)
 			if rr.Chance(0.3) {
-				fmt.Fprintf(&b, `<D:response><D:href>%s</D:href><D:status>HTTP/1.1 404 Not Found</D:status></D:response>`, p)
+				extra := rt.Pick(rr, []string{"", "", `<D:responsedescription>removed on the server</D:responsedescription>`, `<D:error><D:no-such-resource/></D:error><D:responsedescription>gone</D:responsedescription>`})
+				fmt.Fprintf(&b, `<D:response><D:href>%s</D:href><D:status>HTTP/1.1 404 Not Found</D:status>%s</D:response>`, p, extra)
 			} else {
 				fmt.Fprintf(&b, `<D:response><D:href>%s</D:href><D:propstat><D:prop><D:getetag>"sync-%d"</D:getetag><D:getlastmodified>Mon, 01 Jan 2024 00:00:0%d GMT</D:getlastmodified></D:prop><D:status>HTTP/1.1 200 OK</D:status></D:propstat></D:response>`, p, i, i)
 			}
